@@ -64,6 +64,23 @@ def sweep_impl(rep, tier, seed):
                               "result changes when a constant is added or the data are scaled by a positive factor",
                               function="core/filters.py::MatchedFilter", input=dict(inp, a=a, b=b), observed=[float(mf2.snr), mf2.peak_bin],
                               required=[float(mf.snr), mf.peak_bin])
+        # a negative dip stronger than the pulse: the report is the MAXIMUM response, not the largest magnitude
+        if n >= 40:
+            y = rng.normal(0.0, 1.0, n).astype(np.float32)
+            y[n // 4: n // 4 + 3] += 6.0
+            y[(3 * n) // 4: (3 * n) // 4 + 5] -= 14.0
+            rep.case(("dip", n))
+            try:
+                mf = MatchedFilter(y, temp_kind="boxcar", nbins_max=6)
+                convs = np.asarray(mf.convs, dtype=np.float64)
+                k, t = np.unravel_index(np.argmax(convs), convs.shape)
+                rep.check(abs(float(mf.snr) - float(convs.max())) <= 1e-6 * max(1.0, abs(float(convs.max()))) and mf.peak_bin == int(t)
+                          and mf.best_temp is mf.temp_bank[int(k)],
+                          "reported S/N, peak bin and best template are not the maximum response and its location",
+                          function="core/filters.py::MatchedFilter._compute", input=dict(n=n, kind="boxcar", dip=True, seed=seed),
+                          observed=[float(mf.snr), mf.peak_bin], required=[float(convs.max()), int(t)])
+            except Exception as exc:  # noqa: BLE001
+                rep.fail("MatchedFilter raised for a valid series", function="core/kernels.py::convolve_templates", input=dict(n=n, dip=True), observed=repr(exc)[:160])
         # noiseless boxcar of a width present in the bank is recovered at its start bin with that width
         for width in (1, 2, 3, 4, 6):
             if width * 4 > n:
